@@ -846,6 +846,7 @@ impl<'a> Message<'a> {
                 };
 
                 Signature::check_signature_key_version_alignment(key, config)?;
+                Signature::check_signature_hash_strength(config)?;
 
                 // Check that the high 16 bits of the hash from the signature packet match with the hash we
                 // just calculated.
